@@ -45,6 +45,9 @@ ATOMS.update({
     # a LIKE / glob pattern and the regular expression it translates to, side by side (letter case matters to one only)
     'likeA': ("name like 'a%'", None), 'rxA': ("name =~ '^a.*$'", None), 'nrxA': ("name !=~ '^a.*$'", "name =~ '^a.*$'"),
     'globA': ("name = 'a*'", None),
+    # content-derived columns next to metadata columns (AND/OR only: they are not always present)
+    'szpos': ('size > 0', None), 'lc3': ('line_count = 3', None), 'lcge': ('line_count >= 1', None), 'shb': ('is_shebang = true', None),
+    'sha': ("sha1 = 'a9993e364706816aba3e25717850c26c9cd0d89d'", None), 'isf': ('is_file = true', None),
 })
 
 # the meaning of the atoms whose pattern is computed per entry (their rows cannot be taken on trust from a run in
@@ -58,7 +61,7 @@ MEANING = {
 TUPLES = {
     'quick': [('gt', 'like', 'isdir', 'hl'), ('ge', 'glob', 'bare', 'btw'),
               ('eq', 'eeq', 'le', 'like'), ('nlike', 'gt', 'nbtw', 'bare'), ('lt', 'ne', 'rx', 'hl'),
-              ('arith', 'len', 'hlge', 'glob'), ('le', 'nrx', 'ene', 'eq'), ('likeA', 'nrxA', 'rxA', 'globA'), ('dyn', 'gt', 'eeqw', 'dynrx'), ('dynall', 'glob', 'dynext', 'lt'),
+              ('arith', 'len', 'hlge', 'glob'), ('le', 'nrx', 'ene', 'eq'), ('likeA', 'nrxA', 'rxA', 'globA'), ('szpos', 'lc3', 'issym', 'lcge', 'nonot'), ('isf', 'sha', 'shb', 'lc3', 'nonot', 'symlinks'), ('dyn', 'gt', 'eeqw', 'dynrx'), ('dynall', 'glob', 'dynext', 'lt'),
               ('issym', 'big', 'symeq', 'like', 'symlinks')],
 }
 TUPLES['thorough'] = TUPLES['quick'] + [('btw', 'rx', 'hl', 'lt'),
@@ -91,6 +94,12 @@ def the_tree():
     t['a?'] = F(10)
     t['a*'] = F(11)
     t['s20']['c']['big'] = F(500)
+    t['lines3'] = F(data='a\nb\nc\n')
+    t['l3'] = {'t': 'l', 'to': 'lines3'}
+    t['abc'] = F(data='abc')
+    t['labc'] = {'t': 'l', 'to': 'abc'}
+    t['run.sh'] = F(data='#!/bin/sh\necho\nexit\n')
+    t['lrun'] = {'t': 'l', 'to': 'run.sh'}
     t['Abc'] = F(7)
     t['AX'] = F(12)
     t['lbig'] = {'t': 'l', 'to': 's20/big'}
@@ -217,6 +226,10 @@ def classify(f, atoms_k):
     return 'not-complement:' + '+'.join(sorted({atoms_k[x[1]] for x in nots}))
 
 
+def has_not(f):
+    return f[0] == 'n' or (f[0] != 'a' and (has_not(f[1]) or has_not(f[2])))
+
+
 def nnodes(f):
     if f[0] == 'a':
         return 1
@@ -227,16 +240,19 @@ def nnodes(f):
 
 def groups(tier, seed):
     for tup in TUPLES[tier]:
-        atoms = [ATOMS[k][0] for k in tup if k != 'symlinks']
+        atoms = [ATOMS[k][0] for k in tup if k not in ('symlinks', 'nonot')]
         seen = set()
         pending = []
         idx = 0
         kmax = KMAX[tier] if not (tier == 'quick' and TUPLES[tier].index(tup) >= 7) else 2
+        nonot = 'nonot' in tup
         for k in range(0, kmax + 1):
             allmax = 2 if tier == 'quick' or TUPLES[tier].index(tup) >= 3 else 3
             modes = ['all'] if k <= allmax else ['seq']
             for mode in modes:
                 for f in formulas(k, mode, len(atoms)):
+                    if nonot and has_not(f):
+                        continue
                     styles = (0, 1, 2) if k <= 1 else (idx % 3,) if tier == 'quick' else (0, 1 + idx % 2)
                     idx += 1
                     for st in styles:
@@ -263,6 +279,8 @@ def eval_group(env, group, tier):
     rootopt = ''
     if tup and tup[-1] == 'symlinks':
         rootopt, tup = ' symlinks', tup[:-1]
+    if tup and tup[-1] == 'nonot':
+        tup = tup[:-1]
     atoms = [ATOMS[k][0] for k in tup]
     root = env.newdir('c3')
     core.materialise(root, the_tree())
